@@ -9,6 +9,7 @@ import (
 	"strings"
 	"sync/atomic"
 	"testing"
+	"time"
 
 	wt "github.com/hnakamur/whispertool"
 	"github.com/hnakamur/whispertool/cmd"
@@ -41,6 +42,9 @@ type C12Case struct {
 }
 
 var c12Counter int64
+
+// serverWedged is set once a remote run did not return: the server (and this process) is then unusable.
+var serverWedged string
 
 func errClass(err error) string {
 	switch {
@@ -145,8 +149,30 @@ again:
 			dc.DestBase = []string{root, url}[i]
 		}
 	}
+	if serverWedged != "" {
+		add("remote-hang", "%s: (not run) the server stopped answering earlier in this process: %s", desc, serverWedged)
+		return
+	}
 	errL, pmL := runCommand(now, cmdL)
-	errR, pmR := runCommand(now, cmdR)
+	var errR error
+	var pmR string
+	doneR := make(chan struct{})
+	tt := curT
+	go func() {
+		defer close(doneR)
+		saved := curT
+		curT = tt
+		errR, pmR = runCommand(now, cmdR)
+		curT = saved
+	}()
+	select {
+	case <-doneR:
+	case <-time.After(90 * time.Second):
+		// the local run returned at once; the same read through the server has not returned after 90 s
+		serverWedged = desc
+		add("remote-hang", "%s: the local run finished (%v) but the run against the server URL did not return within 90 s", desc, errL)
+		return
+	}
 	if pmL != "" {
 		add("local-panic", "%s: the local run panicked: %s", desc, pmL)
 		return
